@@ -13,8 +13,8 @@ CLAIMS = {
          "Static necessary-condition check: every package-level variable written after init is in a reviewed class (mutex-guarded, atomic-only, init-only, hook) whose condition is re-proved on each run; the RCU program cache is published atomically under its mutex and only fresh copies are mutated. Interleavings are not explored.",
          "Trusts sync/atomic, sync.Mutex, sync.Pool; objects handed to natives are assumed unshared. Value-level determinism under concurrency is not decided.",
          "DESIGN.md §3.4 L1/L2, §4 C08"),
- "C10": ("constant/layout relations via go/types Sizes and constant evaluation; emitter-template extraction for frame adjustments",
-         "Static necessary-condition check: GC pointer bitmaps equal the generated functions' parameter words, stack pre-growth covers generated+native frames, prologue/epilogue/Load share one frame constant, hard-coded state-stack offsets equal struct offsets.",
+ "C10": ("constant/layout relations via go/types Sizes and constant evaluation; emitter-template extraction for frame adjustments and the frame-pointer chain; heap-pointer dataflow over the emitted templates (write barrier); rooting of pointers embedded in IR",
+         "Static necessary-condition check: GC pointer bitmaps equal the generated functions' parameter words, stack pre-growth covers generated+native frames, prologue/epilogue/Load share one frame constant, hard-coded state-stack offsets equal struct offsets; BP is saved at, pointed to and restored from one slot in the three generated frames; heap pointers are stored to non-stack memory only inside the write-barrier helpers; pointers stored in IR instructions are not addresses of function locals.",
          "Trusts types.SizesFor(gc,amd64) and the asm2asm-generated _stack__ constants. pcsp/funcdata tables, preemption/stack-move safety per instruction are not decided.",
          "DESIGN.md §3.6 K1-K3, §4 C10"),
  "C13": ("sibling agreement of the SSE/AVX2 dispatch tables and generated export rows (AST set extraction, type identity)",
